@@ -133,7 +133,7 @@ NET_STUBS = ["NIC and wire: in-memory link endpoints registered through stack.Re
              "goroutine scheduling: one P, no time-slice pre-emption (runtime overlay), GC off during a run; seeded runtime.Gosched at verif schedule points and at every frame emission",
              "crypto randomness (pkg/rand): seeded stream, one-shot queue to place initial sequence numbers",
              "runtime.gopark/goready + amd64 assembly of pkg/sleep: channel parker (verif hook)", "log output: discarded"]
-NET_ASSUME = ["a clean batch is evidence, not proof", "true parallel data races are invisible to a one-P cooperative scheduler",
+NET_ASSUME = ["a clean batch is evidence, not proof", "workers whose variant starts with netsimx: run the same harness against /repo's working tree instrumented at build time with a schedule point before every synchronising statement (tools/autoyield); all other workers have schedule points only at the hand-placed hook sites, frame emissions and clock reads", "true parallel data races are invisible to a one-P cooperative scheduler",
               "link endpoints hand the stack packets whose first view holds all headers, as every shipped link endpoint does"]
 
 PROPS["C01"] = dict(
@@ -539,6 +539,53 @@ _add("C01", rule="link write errors as a wire fault (the device refuses a frame;
      "speak first from the accepting side (ServerFirst)")
 _add("C02", rule="link write errors count as losses of the frame they refuse")
 _add("C14", rule="link write errors are part of the fault mix of the two-stack runs and of their twins")
+
+
+# wave 7
+_add("C01", rule="(netsimx, one worker in four) the same scenario on the build with automatic schedule points before every synchronising "
+     "statement of the stack (DESIGN.md 0.1)")
+_add("C02", rule="(netsimx, one worker in four) the same scenario on the build with automatic schedule points; 3% of the runs use receive buffers "
+     "above 64 KB that are no multiple of the window-scale unit, transfers of 150-300 KB and pausing readers, so that scaled windows really close",
+     probes=[])
+_add("C03", rule="in SYN-SENT, segments without SYN (bare ACK, data, FIN-ACK) that acknowledge something else (one reset each); a second SYN with another "
+     "sequence number while a passive handshake is half open (the listening port never sends a SYN of its own, no connection comes of it)",
+     probes=["active_wrong_ack_without_syn", "second_syn_with_another_sequence_number"])
+_add("C04", rule="active opens whose peer offers a small window (100-20000 bytes) on its SYN-ACK and whose SYN-ACK arrives a second time (finding F23); "
+     "ACKs half the sequence space ahead of anything sent", probes=["syn_ack_repeated", "acks_of_data_never_sent"])
+_add("C05", rule="the application shuts down its write side while data is outstanding: the FIN is a segment like any other for the initial window, the "
+     "segments in flight and 'one segment per timeout'; packet-too-big reports whose MTU is not below the one in use (nothing is thereby acknowledged); a "
+     "receiver whose advancing ACKs also change the window; inside a fast-recovery episode three duplicates of a partial ACK cannot leave the segment it "
+     "points at untransmitted",
+     probes=["fin_segments_seen", "write_side_shut_down", "packet_too_big_without_a_smaller_mtu", "partial_ack_then_three_duplicates"])
+_add("C06", rule="echo requests sent through ping sockets (IPv4 and IPv6; finding F24); two networks behind routers that carry the same address on two "
+     "different links; one addr worker and the demux worker run on the netsimx build",
+     probes=["echo_requests_sent_by_ping_sockets", "ping_frames_checked"])
+_add("C07", rule="valid transport packets cut into 10-25 fragments (one view per fragment reaches the transport layer); on a fresh connection whose local "
+     "side has shut down writing: three to five identical ACKs that do not cover the FIN, then one that does",
+     probes=["transport_packets_in_many_fragments", "duplicate_acks_with_only_a_fin_in_flight"])
+_add("C08", rule="(netsim:reasm) IP options (record route in the first fragment only, router alert in every fragment)", probes=["fragments_with_ip_options"])
+_add("C09", rule="inbound packets with IP options; UDP sockets that join and leave multicast groups (a group address is assigned to the interface exactly "
+     "while a membership lasts); connected UDP sockets connected again (findings F21, F22); two goroutines registering endpoints under one identity at "
+     "the same time; one worker in four runs on the netsimx build",
+     probes=["packets_with_ip_options", "multicast_groups_joined", "multicast_groups_left", "packets_to_multicast_groups", "udp_sockets_connected_again",
+             "registrations_racing_for_one_identity"])
+_add("C10", rule="(primsim) a third of the cases keep every operation on one (network, transport, port) so that one port goes through long histories; "
+     "(netsim:demux / netsimx:demux) connected UDP sockets connected again to the same or another peer (finding F21)",
+     probes=["udp_sockets_connected_again"])
+_add("C11", rule="ICMP port-unreachable errors quoting a datagram the socket sent (whatever the following Reads report, no datagram nobody sent); Bind with a "
+     "commit function that fails while a datagram for that port arrives; one worker in four on the netsimx build",
+     probes=["icmp_errors_for_sent_datagrams", "binds_failing_at_commit"])
+_add("C12", rule="a mapping delivered after a failed resolution (late reply, announcement, the neighbour's own request) is what the next send uses; one "
+     "UDP socket connected to one neighbour after another; a second IPv4 address that comes and goes (requests for it answered exactly while assigned); "
+     "one worker in four on the netsimx build",
+     probes=["socket_connected_to_one_neighbour_after_another", "second_address_added", "requests_for_the_second_address"])
+_add("C13", rule="requests with IP options and with link-layer padding behind the datagram; fragmented requests of two requesters sharing one IP "
+     "identification, fragments interleaved",
+     probes=["requests_with_ip_options", "requests_with_link_padding", "interleaved_fragments_of_two_requesters"])
+_add("C14", rule="(window variant) ACKs exactly half the sequence space ahead of anything sent, give or take one", probes=[])
+_add("C20", rule="the handler must not see headers of earlier requests of the session; bodies and responses containing '%' sequences; in 30% of the runs the "
+     "server's replies are sent by a second goroutine while its handler is back in ReadData",
+     probes=["bodies_with_percent_signs", "ws_server_sends_while_handler_reads"])
 
 
 PENDING = "check not built yet (work in progress; will be claimed once its simulation exists)"
